@@ -236,6 +236,18 @@ def run_tree(job, acc):
             if d2 != before:
                 V('C17.assoc_in', 'mutates-input',
                   f'assoc_in modified its input: {d2} != {before}', case)
+            # writing a DICTIONARY replaces what was there (it is not merged
+            # into an existing branch)
+            for newval in ({}, {'z': 9}):
+                d6 = copy.deepcopy(plain)
+                res6 = assoc_path(d6, p, copy.deepcopy(newval))
+                if get_in(res6, p) != newval:
+                    V('C17.assoc_path', 'get_in-does-not-read-assoc_path',
+                      f'after assoc_path(d, {p}, {newval}) get_in gives '
+                      f'{get_in(res6, p)!r}', case)
+                elif res6 != _ref_assoc(before, p, newval):
+                    V('C17.assoc_path', 'changes-other-entries',
+                      f'assoc_path(d, {p}, {newval}) gave {res6}', case)
             # delete_in removes exactly that entry
             d3 = copy.deepcopy(res)
             delete_in(d3, p)
